@@ -56,15 +56,29 @@ class C03(Check):
 
     # ------------------------------------------------------------ warm-up
     def warmup(self, tier):
+        from ..driver import fork_map
         from ..seams import install
 
         install()
-        import sopht.numeric.eulerian_grid_ops as spne
+        import sopht.numeric.eulerian_grid_ops  # noqa: F401
 
-        for rt in (np.float32, np.float64):
-            for nt in (1, 2, 3, 4):
-                spne.UnboundedPoissonSolverPYFFTW2D(grid_size_y=2, grid_size_x=3, real_t=rt, num_threads=nt)
-                spne.UnboundedPoissonSolverPYFFTW3D(grid_size_z=2, grid_size_y=2, grid_size_x=3, real_t=rt, num_threads=nt)
+        # Populate the on-disk kernel cache in a forked child: the parent must never run an OpenMP
+        # region before forking (a libgomp thread pool does not survive fork; a tree whose solver
+        # constructor launches a kernel would otherwise hang or crash every child).
+        def build(_):
+            import sopht.numeric.eulerian_grid_ops as spne
+
+            for rt in (np.float32, np.float64):
+                for nt in (1, 2, 3, 4):
+                    spne.UnboundedPoissonSolverPYFFTW2D(grid_size_y=2, grid_size_x=3, real_t=rt, num_threads=nt)
+                    spne.UnboundedPoissonSolverPYFFTW3D(grid_size_z=2, grid_size_y=2, grid_size_x=3, real_t=rt, num_threads=nt)
+            return True
+
+        for _, st, payload in fork_map(build, [0], 1, 900):
+            if st != "ok":
+                from ..driver import HarnessError
+
+                raise HarnessError(f"C03 warm-up failed ({st}): {str(payload)[-1500:]}")
 
     # ------------------------------------------------------------ program
     def _draw_shape(self, rng, dim, tier):
